@@ -386,6 +386,8 @@ PROPERTY_INFO = {
     },
     "C18": {
         "not_decided": ["1/f^alpha shape within ~1 dB between the corners: transcendental and approximate; bounded grid only"],
+        "level": "other",
+        "explanation": "proved: fftnoise builds a Hermitian spectrum with the prescribed magnitudes for every length (odd and even), real DC / Nyquist bins, the input is not written; white_noise's variance is psd*fs. The central claim - the generated noise has the prescribed 1/f^alpha spectrum within about 1 dB - is a statement about transcendental filter responses and is checked on a bounded grid only, so the property as a whole is not claimed as proof",
     },
 }
 
